@@ -498,3 +498,1652 @@ def format_number_list(nums, fmt, gsep=None, gsize=None):
         out.append(_format_one(n, t, gsep, gsize))
     out.append(suffix)
     return ''.join(out)
+
+
+# ---------------------------------------------------------------------------
+# Stylesheet tree access (3.4 whitespace stripping of the stylesheet)
+# ---------------------------------------------------------------------------
+def _space_preserved(el):
+    """xml:space in effect for text children of stylesheet element el."""
+    n = el
+    while n is not None and n.kind == 'element':
+        for a in n.attributes:
+            if a.local == 'space' and a.uri == XML_NS:
+                if a.value == 'preserve':
+                    return True
+                if a.value == 'default':
+                    return False
+        n = n.parent
+    return False
+
+
+def _content(el):
+    """Children of a stylesheet element after stylesheet whitespace stripping;
+    comments and processing instructions are ignored (they are not part of a
+    template)."""
+    keep_ws = None
+    out = []
+    for c in el.children:
+        k = c.kind
+        if k == 'element':
+            out.append(c)
+        elif k == 'text':
+            if _is_ws(c.value):
+                if keep_ws is None:
+                    keep_ws = ((el.uri == XSL_NS and el.local == 'text')
+                               or _space_preserved(el))
+                if not keep_ws:
+                    continue
+            out.append(c)
+    return out
+
+
+def _nsmap(el):
+    m = el._nsmap
+    if m is None:
+        m = dict((n.local, n.value) for n in el.namespaces)
+    return m
+
+
+def _where(el):
+    return '<%s> (%s)' % (el.qname, el.key)
+
+
+def _xsl_attrs(el, allowed, required=()):
+    """Null-namespace attributes of an XSLT element as a dict; validates."""
+    d = {}
+    for a in el.attributes:
+        if a.uri == '':
+            if a.local not in allowed:
+                raise XSLTStaticError('%s: attribute %r is not allowed' % (_where(el), a.local))
+            d[a.local] = a.value
+        elif a.uri == XSL_NS:
+            raise XSLTStaticError('%s: attribute %s in the XSLT namespace on an XSLT element'
+                                  % (_where(el), a.qname))
+    for r in required:
+        if r not in d:
+            raise XSLTStaticError('%s: required attribute %r is missing' % (_where(el), r))
+    return d
+
+
+def _must_be_empty(el):
+    if _content(el):
+        raise XSLTStaticError('%s must be empty' % _where(el))
+
+
+def _is_xsl(n, local=None):
+    return n.kind == 'element' and n.uri == XSL_NS and (local is None or n.local == local)
+
+
+# ---------------------------------------------------------------------------
+# Compiled stylesheet
+# ---------------------------------------------------------------------------
+class _Merged(object):
+    """One stylesheet level after xsl:include merging: import precedence `prec`;
+    the stylesheets it imports (directly or indirectly) have precedences
+    lo .. prec-1."""
+    __slots__ = ('prec', 'lo')
+
+    def __init__(self, prec, lo):
+        self.prec = prec
+        self.lo = lo
+
+
+class _Decl(object):
+    __slots__ = ('el', 'merged', 'base', 'order')
+
+    def __init__(self, el, merged, base, order):
+        self.el = el
+        self.merged = merged
+        self.base = base
+        self.order = order
+
+
+class Template(object):
+    __slots__ = ('name', 'mode', 'params', 'body', 'merged', 'order', 'el')
+
+
+class Rule(object):
+    """One alternative of a match pattern (5.5: a union is a set of rules)."""
+    __slots__ = ('pattern', 'priority', 'template', 'prec', 'order')
+
+
+class Stylesheet(object):
+    def __init__(self):
+        self.uri = None
+        self.rules = {}          # mode (expanded name | None) -> [Rule]
+        self.named = {}          # expanded name -> Template
+        self.globals = []        # [_Global] in declaration order (winners only)
+        self.global_keys = set()
+        self.keys = {}           # expanded name -> [_KeyDef]
+        self.attrsets = {}       # expanded name -> [_AttrSetDef] by (prec, order)
+        self.space_rules = []    # [(prec, priority, order, test, strip)]
+        self.aliases = {}        # stylesheet uri -> result uri
+        self.output = {}
+        self.function_names = None
+        self.sort_is_codepoint = True
+
+
+class _Loader(object):
+    """2.6: builds the import tree, merges includes, assigns import precedence."""
+
+    def __init__(self, resolver):
+        self.resolver = resolver
+        self.counter = 0
+        self.order = 0
+        self.decls = []
+
+    def fetch(self, href, base):
+        href0 = href
+        href, frag = urldefrag(href)
+        if frag:
+            raise XSLTUnsupported('fragment identifier in xsl:import/include href %r' % href0)
+        absuri = urljoin(base or '', href)
+        if self.resolver is None:
+            raise XSLTStaticError('no resolver to load %r' % href)
+        try:
+            text = self.resolver(href, base)
+        except (XSLTStaticError, XSLTUnsupported):
+            raise
+        except Exception as e:
+            raise XSLTStaticError('cannot load stylesheet module %r: %s' % (href, e))
+        if text is None:
+            raise XSLTStaticError('cannot load stylesheet module %r' % href)
+        return text, absuri
+
+    def parse(self, text, uri):
+        try:
+            doc = _model.parse_document(text, uri)
+        except _model.UnsupportedDocument as e:
+            raise XSLTUnsupported('stylesheet module %s: %s' % (uri, e))
+        except ValueError as e:
+            raise XSLTStaticError('stylesheet module %s: %s' % (uri, e))
+        top = [c for c in doc.root.children if c.kind == 'element'][0]
+        if top.uri != XSL_NS:
+            for a in top.attributes:
+                if a.uri == XSL_NS and a.local == 'version':
+                    raise XSLTUnsupported('literal result element as stylesheet (2.3)')
+            raise XSLTStaticError('document element of %s is not xsl:stylesheet' % uri)
+        if top.local not in ('stylesheet', 'transform'):
+            raise XSLTStaticError('document element of %s is xsl:%s' % (uri, top.local))
+        at = _xsl_attrs(top, ('id', 'extension-element-prefixes', 'exclude-result-prefixes',
+                              'version'), ('version',))
+        if _strip(at['version']) != '1.0':
+            raise XSLTUnsupported('version=%r (forwards-compatible processing)' % at['version'])
+        if 'extension-element-prefixes' in at:
+            raise XSLTUnsupported('extension-element-prefixes')
+        return doc, top
+
+    def load_level(self, text, uri, stack):
+        imports = []
+        decls = []
+        self.collect(text, uri, stack, imports, decls)
+        lo = self.counter
+        for itext, iuri, istack in imports:
+            self.load_level(itext, iuri, istack)
+        merged = _Merged(self.counter, lo)
+        self.counter += 1
+        for el, base in decls:
+            self.decls.append(_Decl(el, merged, base, self.order))
+            self.order += 1
+        return merged
+
+    def collect(self, text, uri, stack, imports, decls):
+        if uri in stack:
+            raise XSLTStaticError('stylesheet %s includes/imports itself' % uri)
+        stack = stack + [uri]
+        doc, top = self.parse(text, uri)
+        seen_other = False
+        for c in top.children:
+            if c.kind == 'text':
+                if not _is_ws(c.value):
+                    raise XSLTStaticError('text at the top level of %s' % uri)
+                continue
+            if c.kind != 'element':
+                continue
+            if c.uri == XSL_NS and c.local == 'import':
+                if seen_other:
+                    raise XSLTStaticError('xsl:import must precede all other top-level elements')
+                at = _xsl_attrs(c, ('href',), ('href',))
+                _must_be_empty(c)
+                itext, iuri = self.fetch(at['href'], uri)
+                if iuri in stack:
+                    raise XSLTStaticError('stylesheet %s imports itself' % iuri)
+                imports.append((itext, iuri, stack))
+                continue
+            seen_other = True
+            if c.uri == XSL_NS and c.local == 'include':
+                at = _xsl_attrs(c, ('href',), ('href',))
+                _must_be_empty(c)
+                itext, iuri = self.fetch(at['href'], uri)
+                self.collect(itext, iuri, stack, imports, decls)
+                continue
+            if c.uri == '':
+                raise XSLTStaticError('top-level element %s has a null namespace URI' % c.qname)
+            if c.uri != XSL_NS:
+                continue                      # user data element: ignored
+            decls.append((c, uri))
+
+
+# ---------------------------------------------------------------------------
+# Expressions, patterns, attribute value templates
+# ---------------------------------------------------------------------------
+_UNSUPPORTED_FUNCTIONS = ('format-number', 'system-property', 'element-available',
+                          'function-available')
+_NODESET_ARG0 = ('count', 'sum', 'name', 'local-name', 'namespace-uri')
+
+
+class _Scan(object):
+    """Rewrites an AST so that a variable reference in a position that requires
+    a node-set goes through the internal guard function (11.1: such an
+    operation on a result tree fragment is an error), and collects the variable
+    references and function names used."""
+
+    def __init__(self, ns):
+        self.ns = ns
+        self.vars = []
+        self.funcs = []
+
+    def expr(self, e, nspos=False):
+        t = e[0]
+        if t == 'num' or t == 'lit':
+            return e
+        if t == 'var':
+            self.vars.append((e[1], e[2]))
+            if nspos:
+                return ('fn', _GUARD_PFX, 'ns', (e,))
+            return e
+        if t == 'path':
+            return ('path', e[1], tuple(self.step(s) for s in e[2]))
+        if t == 'bin':
+            return ('bin', e[1], self.expr(e[2]), self.expr(e[3]))
+        if t == 'neg':
+            return ('neg', self.expr(e[1]))
+        if t == 'union':
+            return ('union', self.expr(e[1], True), self.expr(e[2], True))
+        if t == 'filter':
+            return ('filter', self.expr(e[1], True), tuple(self.expr(p) for p in e[2]))
+        if t == 'fpath':
+            return ('fpath', self.expr(e[1], True), tuple(self.step(s) for s in e[2]))
+        if t == 'fn':
+            pfx, local, args = e[1], e[2], e[3]
+            self.funcs.append((pfx, local))
+            if pfx is None:
+                if local in _NODESET_ARG0 and args:
+                    return ('fn', pfx, local, (self.expr(args[0], True),) +
+                            tuple(self.expr(a) for a in args[1:]))
+                return ('fn', pfx, local, tuple(self.expr(a) for a in args))
+            uri = XML_NS if pfx == 'xml' else self.ns.get(pfx)
+            free = ((uri in (NS_EXSL_COMMON,) and local in ('node-set', 'object-type'))
+                    or (uri in (NS_XALAN, NS_XALAN_OLD) and local == 'nodeset'))
+            return ('fn', pfx, local, tuple(self.expr(a, not free) for a in args))
+        if t == 'pattern':
+            return ('pattern', tuple(self.expr(a) for a in e[1]))
+        raise AssertionError(e)
+
+    def step(self, s):
+        return ('step', s[1], s[2], tuple(self.expr(p) for p in s[3]), s[4])
+
+
+class _Expr(object):
+    __slots__ = ('ast', 'ns', 'text')
+
+    def __init__(self, ast, ns, text):
+        self.ast = ast
+        self.ns = ns
+        self.text = text
+
+    def eval(self, st, c):
+        ctx = rx.Context(c.node, c.pos, c.size, c.vars, self.ns, st.functions, c.node)
+        try:
+            return rx._ev(self.ast, c.node, c.pos, c.size, ctx)
+        except rx.XPathDynamicError as e:
+            raise XSLTDynamicError('%s: %s' % (self.text, e))
+        except rx.XPathUnspecified as e:
+            raise XSLTUnsupported('%s: %s' % (self.text, e))
+
+    def eval_at(self, st, node, pos, size, variables):
+        ctx = rx.Context(node, pos, size, variables, self.ns, st.functions, node)
+        try:
+            return rx._ev(self.ast, node, pos, size, ctx)
+        except rx.XPathDynamicError as e:
+            raise XSLTDynamicError('%s: %s' % (self.text, e))
+        except rx.XPathUnspecified as e:
+            raise XSLTUnsupported('%s: %s' % (self.text, e))
+
+
+class _Pattern(object):
+    __slots__ = ('ast', 'ns', 'text')
+
+    def __init__(self, ast, ns, text):
+        self.ast = ast
+        self.ns = ns
+        self.text = text
+
+    def matches(self, st, node, variables):
+        """5.2, literally: some ancestor-or-self A of node exists such that
+        evaluating the pattern as an expression with context A selects node."""
+        ns, fns = self.ns, st.functions
+        try:
+            for alt in self.ast[1]:
+                a = node
+                while a is not None:
+                    env = rx.Context(a, 1, 1, variables, ns, fns, a)
+                    v = rx._ev(alt, a, 1, 1, env)
+                    if not isinstance(v, list):
+                        raise XSLTDynamicError('pattern %s is not a node-set' % self.text)
+                    for x in v:
+                        if x is node:
+                            return True
+                    a = a.parent
+            return False
+        except rx.XPathDynamicError as e:
+            raise XSLTDynamicError('%s: %s' % (self.text, e))
+        except rx.XPathUnspecified as e:
+            raise XSLTUnsupported('%s: %s' % (self.text, e))
+
+
+class _AVT(object):
+    __slots__ = ('parts', 'const')
+
+    def __init__(self, parts):
+        self.parts = parts
+        self.const = None
+        if all(isinstance(p, str) for p in parts):
+            self.const = ''.join(parts)
+
+    def eval(self, st, c):
+        if self.const is not None:
+            return self.const
+        out = []
+        for p in self.parts:
+            if isinstance(p, str):
+                out.append(p)
+            else:
+                out.append(rx.to_string(p.eval(st, c)))
+        return ''.join(out)
+
+
+class _Env(dict):
+    """Local variable bindings; names not bound locally are global variables,
+    evaluated on first use (so that circular definitions are detected)."""
+    __slots__ = ('g',)
+
+    def __init__(self, g, src=None):
+        if src:
+            dict.__init__(self, src)
+        else:
+            dict.__init__(self)
+        self.g = g
+
+    def __missing__(self, k):
+        return self.g.force(k)
+
+    def child(self):
+        return _Env(self.g, self)
+
+
+class _Ctx(object):
+    __slots__ = ('node', 'pos', 'size', 'vars', 'rule', 'mode')
+
+    def __init__(self, node, pos, size, variables, rule, mode):
+        self.node = node
+        self.pos = pos
+        self.size = size
+        self.vars = variables
+        self.rule = rule
+        self.mode = mode
+
+
+# ---------------------------------------------------------------------------
+# Instructions (run-time side).  run(st, c, out): st = _State of the
+# transformation, c = _Ctx (current node / list / variables / current template
+# rule / mode), out = builder receiving the created nodes.
+# ---------------------------------------------------------------------------
+class _Body(object):
+    __slots__ = ('ins', 'binds')
+
+    def __init__(self, ins, binds):
+        self.ins = ins
+        self.binds = binds
+
+    def run(self, st, c, out):
+        if self.binds:
+            c = _Ctx(c.node, c.pos, c.size, c.vars.child(), c.rule, c.mode)
+        for i in self.ins:
+            i.run(st, c, out)
+
+
+_EMPTY_BODY = _Body([], False)
+
+
+class _Text(object):
+    __slots__ = ('value',)
+
+    def __init__(self, value):
+        self.value = value
+
+    def run(self, st, c, out):
+        out.text(self.value)
+
+
+class _ValueOf(object):
+    __slots__ = ('select',)
+
+    def __init__(self, select):
+        self.select = select
+
+    def run(self, st, c, out):
+        out.text(rx.to_string(self.select.eval(st, c)))
+
+
+class _LRE(object):
+    __slots__ = ('uri', 'local', 'prefix', 'nsmap', 'attrsets', 'attrs', 'body')
+
+    def run(self, st, c, out):
+        out.start_element(self.uri, self.local, self.prefix, self.nsmap)
+        if self.attrsets:
+            st.apply_attrsets(self.attrsets, c, out)
+        for uri, local, prefix, avt in self.attrs:
+            out.attribute(uri, local, prefix, avt.eval(st, c))
+        self.body.run(st, c, out)
+        out.end_element()
+
+
+class _SkipInitialAttrs(object):
+    """7.1.2 recovery: the content of an xsl:element whose name is not a QName
+    is used "excluding any initial attribute nodes"."""
+
+    def __init__(self, out):
+        self.out = out
+        self.skipping = True
+
+    def start_element(self, *a):
+        self.skipping = False
+        return self.out.start_element(*a)
+
+    def end_element(self):
+        return self.out.end_element()
+
+    def attribute(self, *a):
+        if not self.skipping:
+            self.out.attribute(*a)
+
+    def namespace(self, *a):
+        if not self.skipping:
+            self.out.namespace(*a)
+
+    def text(self, s):
+        if s:
+            self.skipping = False
+        self.out.text(s)
+
+    def comment(self, s):
+        self.skipping = False
+        self.out.comment(s)
+
+    def pi(self, t, d):
+        self.skipping = False
+        self.out.pi(t, d)
+
+
+class _Element(object):
+    __slots__ = ('name', 'namespace', 'nsmap', 'attrsets', 'body')
+
+    def run(self, st, c, out):
+        name = self.name.eval(st, c)
+        q = _split_qname(name)
+        if q is None:
+            st.recover('7.1.2-element-name-not-qname')
+            self.body.run(st, c, _SkipInitialAttrs(out))
+            return
+        prefix, local = q
+        if self.namespace is None:
+            if prefix is None:
+                uri = self.nsmap.get('', '')
+            elif prefix == 'xml':
+                uri = XML_NS
+            elif prefix in self.nsmap:
+                uri = self.nsmap[prefix]
+            else:
+                raise XSLTDynamicError('xsl:element name=%r: unbound prefix' % name)
+        else:
+            uri = self.namespace.eval(st, c)
+        out.start_element(uri, local, prefix or '', None)
+        if self.attrsets:
+            st.apply_attrsets(self.attrsets, c, out)
+        self.body.run(st, c, out)
+        out.end_element()
+
+
+class _Attribute(object):
+    __slots__ = ('name', 'namespace', 'nsmap', 'body')
+
+    def run(self, st, c, out):
+        name = self.name.eval(st, c)
+        q = _split_qname(name)
+        if q is None or name == 'xmlns':
+            st.recover('7.1.3-attribute-name-not-qname')
+            return
+        prefix, local = q
+        if self.namespace is None:
+            if prefix is None:
+                uri = ''
+            elif prefix == 'xml':
+                uri = XML_NS
+            elif prefix in self.nsmap:
+                uri = self.nsmap[prefix]
+            else:
+                raise XSLTDynamicError('xsl:attribute name=%r: unbound prefix' % name)
+        else:
+            uri = self.namespace.eval(st, c)
+        tc = _TextCollector(st, '7.1.3-non-text-in-attribute')
+        self.body.run(st, c, tc)
+        out.attribute(uri, local, prefix or '', tc.value())
+
+
+class _Comment(object):
+    __slots__ = ('body',)
+
+    def run(self, st, c, out):
+        tc = _TextCollector(st, '7.4-non-text-in-comment')
+        self.body.run(st, c, tc)
+        s = tc.value()
+        if '--' in s or s.endswith('-'):
+            st.recover('7.4-comment-dashes')
+            while '--' in s:
+                s = s.replace('--', '- -')
+            if s.endswith('-'):
+                s += ' '
+        out.comment(s)
+
+
+class _PI(object):
+    __slots__ = ('name', 'body')
+
+    def run(self, st, c, out):
+        name = self.name.eval(st, c)
+        if not rx.is_ncname(name) or name.lower() == 'xml':
+            st.recover('7.3-pi-name')
+            return
+        tc = _TextCollector(st, '7.3-non-text-in-pi')
+        self.body.run(st, c, tc)
+        s = tc.value()
+        if '?>' in s:
+            st.recover('7.3-pi-close')
+            s = s.replace('?>', '? >')
+        out.pi(name, s)
+
+
+def _node_nsmap(n):
+    return dict((x.local, x.value) for x in n.namespaces if x.local != 'xml')
+
+
+class _Copy(object):
+    __slots__ = ('attrsets', 'body')
+
+    def run(self, st, c, out):
+        n = c.node
+        k = n.kind
+        if k == 'element':
+            out.start_element(n.uri, n.local, n.prefix, _node_nsmap(n))
+            if self.attrsets:
+                st.apply_attrsets(self.attrsets, c, out)
+            self.body.run(st, c, out)
+            out.end_element()
+        elif k == 'root':
+            self.body.run(st, c, out)
+        elif k == 'text':
+            out.text(n.value)
+        elif k == 'attribute':
+            out.attribute(n.uri, n.local, n.prefix, n.value)
+        elif k == 'comment':
+            out.comment(n.value)
+        elif k == 'pi':
+            out.pi(n.local, n.value)
+        elif k == 'namespace':
+            out.namespace(n.local, n.value)
+
+
+def _copy_model(n, out):
+    k = n.kind
+    if k == 'element':
+        out.start_element(n.uri, n.local, n.prefix, _node_nsmap(n))
+        for a in n.attributes:
+            out.attribute(a.uri, a.local, a.prefix, a.value)
+        for ch in n.children:
+            _copy_model(ch, out)
+        out.end_element()
+    elif k == 'text':
+        out.text(n.value)
+    elif k == 'root':
+        rr = getattr(n.doc, 'result_root', None)
+        if rr is not None:
+            for ch in rr.children:
+                _copy_result(ch, out)
+        else:
+            for ch in n.children:
+                _copy_model(ch, out)
+    elif k == 'attribute':
+        out.attribute(n.uri, n.local, n.prefix, n.value)
+    elif k == 'comment':
+        out.comment(n.value)
+    elif k == 'pi':
+        out.pi(n.local, n.value)
+    elif k == 'namespace':
+        out.namespace(n.local, n.value)
+
+
+def _copy_result(n, out):
+    k = n.kind
+    if k == 'element':
+        out.start_element(n.uri, n.local, n.prefix, n.namespaces)
+        for a in n.attributes:
+            out.attribute(a.uri, a.local, a.prefix, a.value)
+        for ch in n.children:
+            _copy_result(ch, out)
+        out.end_element()
+    elif k == 'text':
+        out.text(n.value)
+    elif k == 'comment':
+        out.comment(n.value)
+    elif k == 'pi':
+        out.pi(n.local, n.value)
+
+
+class _CopyOf(object):
+    __slots__ = ('select',)
+
+    def __init__(self, select):
+        self.select = select
+
+    def run(self, st, c, out):
+        v = self.select.eval(st, c)
+        if isinstance(v, list):
+            for n in v:
+                _copy_model(n, out)
+        else:
+            out.text(rx.to_string(v))
+
+
+class _If(object):
+    __slots__ = ('test', 'body')
+
+    def run(self, st, c, out):
+        if rx.to_boolean(self.test.eval(st, c)):
+            self.body.run(st, c, out)
+
+
+class _Choose(object):
+    __slots__ = ('whens', 'otherwise')
+
+    def run(self, st, c, out):
+        for test, body in self.whens:
+            if rx.to_boolean(test.eval(st, c)):
+                body.run(st, c, out)
+                return
+        if self.otherwise is not None:
+            self.otherwise.run(st, c, out)
+
+
+class _Sort(object):
+    __slots__ = ('select', 'order', 'datatype')
+
+
+def _is_rtf_value(v):
+    return (len(v) == 1 and v[0].kind == 'root' and getattr(v[0].doc, 'rtf', False))
+
+
+def _select_nodes(st, c, select, what):
+    v = select.eval(st, c)
+    if not isinstance(v, list):
+        raise XSLTDynamicError('%s select=%s is a %s, not a node-set' % (what, select.text, rx.type_name(v)))
+    if _is_rtf_value(v):
+        raise XSLTDynamicError('%s select=%s is a result tree fragment (11.1)' % (what, select.text))
+    return v
+
+
+def _cmp_text(a, b):
+    return -1 if a < b else (1 if a > b else 0)       # code-point order
+
+
+def _cmp_number(a, b):
+    an, bn = a != a, b != b
+    if an or bn:
+        if an and bn:
+            return 0
+        return -1 if an else 1                        # NaN before every number
+    return -1 if a < b else (1 if a > b else 0)
+
+
+def _sort_nodes(st, c, nodes, sorts):
+    """10: stable, multiple keys; the keys are evaluated with the node as
+    current node and the UNSORTED list as current node list."""
+    if not sorts or len(nodes) < 2 and not sorts:
+        return nodes
+    specs = []
+    for s in sorts:
+        order = s.order.eval(st, c) if s.order is not None else 'ascending'
+        if order not in ('ascending', 'descending'):
+            raise XSLTDynamicError('xsl:sort order=%r' % order)
+        dt = s.datatype.eval(st, c) if s.datatype is not None else 'text'
+        if dt not in ('text', 'number'):
+            if _split_qname(dt) is not None and ':' in dt:
+                raise XSLTUnsupported('xsl:sort data-type=%r' % dt)
+            raise XSLTDynamicError('xsl:sort data-type=%r' % dt)
+        specs.append((s.select, dt == 'number', order == 'descending'))
+    n = len(nodes)
+    rows = []
+    for i, node in enumerate(nodes):
+        ks = []
+        for select, numeric, desc in specs:
+            sv = rx.to_string(select.eval_at(st, node, i + 1, n, c.vars))
+            ks.append(rx.string_to_number(sv) if numeric else sv)
+        rows.append((ks, node))
+
+    def cmp(r1, r2):
+        k1, k2 = r1[0], r2[0]
+        for j, (select, numeric, desc) in enumerate(specs):
+            r = _cmp_number(k1[j], k2[j]) if numeric else _cmp_text(k1[j], k2[j])
+            if r:
+                return -r if desc else r
+        return 0
+    rows.sort(key=functools.cmp_to_key(cmp))          # list.sort is stable
+    return [r[1] for r in rows]
+
+
+class _ForEach(object):
+    __slots__ = ('select', 'sorts', 'body')
+
+    def run(self, st, c, out):
+        nodes = _select_nodes(st, c, self.select, 'xsl:for-each')
+        if self.sorts:
+            nodes = _sort_nodes(st, c, nodes, self.sorts)
+        size = len(nodes)
+        body = self.body
+        for i, n in enumerate(nodes):
+            # 5.6: the current template rule becomes null inside xsl:for-each
+            body.run(st, _Ctx(n, i + 1, size, c.vars, None, c.mode), out)
+
+
+class _WithParam(object):
+    __slots__ = ('key', 'value')
+
+
+def _eval_with_params(st, c, wps):
+    if not wps:
+        return None
+    d = {}
+    for wp in wps:
+        d[wp.key] = wp.value.get(st, c)
+    return d
+
+
+class _ApplyTemplates(object):
+    __slots__ = ('select', 'mode', 'sorts', 'params')
+
+    def run(self, st, c, out):
+        if self.select is None:
+            nodes = list(c.node.children)
+        else:
+            nodes = _select_nodes(st, c, self.select, 'xsl:apply-templates')
+        if self.sorts:
+            nodes = _sort_nodes(st, c, nodes, self.sorts)
+        params = _eval_with_params(st, c, self.params)
+        size = len(nodes)
+        mode = self.mode
+        for i, n in enumerate(nodes):
+            st.apply_to(n, i + 1, size, mode, params, out)
+
+
+class _ApplyImports(object):
+    __slots__ = ()
+
+    def run(self, st, c, out):
+        if c.rule is None:
+            raise XSLTDynamicError('xsl:apply-imports while the current template rule is null (5.6)')
+        m = c.rule.template.merged
+        rule = st.find_rule(c.node, c.mode, m.lo, m.prec)
+        if rule is None:
+            st.builtin(c.node, c.mode, out)
+        else:
+            st.run_template(rule.template, rule, c.node, c.pos, c.size, c.mode, None, out)
+
+
+class _CallTemplate(object):
+    __slots__ = ('name', 'params', 'template')
+
+    def run(self, st, c, out):
+        params = _eval_with_params(st, c, self.params)
+        # 6: the current node, current node list and current template rule are unchanged
+        st.run_template(self.template, c.rule, c.node, c.pos, c.size, c.mode, params, out)
+
+
+class _Value(object):
+    """select expression | template body (result tree fragment) | empty string."""
+    __slots__ = ('select', 'body', 'base')
+
+    def get(self, st, c):
+        if self.select is not None:
+            return self.select.eval(st, c)
+        if self.body is None:
+            return ''
+        return st.make_rtf(self.body, c, self.base)
+
+
+class _Variable(object):
+    __slots__ = ('key', 'value')
+
+    def run(self, st, c, out):
+        c.vars[self.key] = self.value.get(st, c)
+
+
+class _Message(object):
+    __slots__ = ('terminate', 'body')
+
+    def run(self, st, c, out):
+        root = ResultNode('root')
+        self.body.run(st, c, _Builder(root, st))
+        st.messages.append(root.string_value())
+        if self.terminate:
+            raise XSLTDynamicError('xsl:message terminate="yes": %s' % root.string_value())
+
+
+class _Number(object):
+    __slots__ = ('level', 'count', 'frm', 'value', 'format', 'gsep', 'gsize')
+
+    def _matches_count(self, st, c, n):
+        if self.count is not None:
+            return self.count.matches(st, n, c.vars)
+        cur = c.node
+        if n.kind != cur.kind:
+            return False
+        if cur.kind in ('element', 'attribute'):
+            return n.local == cur.local and n.uri == cur.uri
+        if cur.kind in ('pi', 'namespace'):
+            return n.local == cur.local
+        return True
+
+    def _numbers(self, st, c):
+        cur = c.node
+        frm = self.frm
+        level = self.level
+        if frm is not None and frm.matches(st, cur, c.vars):
+            raise XSLTUnsupported('xsl:number: the current node matches the from pattern '
+                                  '(ancestor / ancestor-or-self reading)')
+        if level == 'any':
+            if cur.kind in ('attribute', 'namespace'):
+                raise XSLTUnsupported('xsl:number level="any" on an attribute/namespace node')
+            before = []
+            for n in cur.doc.nodes(False, False):
+                if n.order > cur.order:
+                    break
+                before.append(n)
+            if frm is not None:
+                start = None
+                for i in range(len(before) - 2, -1, -1):
+                    if frm.matches(st, before[i], c.vars):
+                        start = i
+                        break
+                if start is None:
+                    raise XSLTUnsupported('xsl:number: no node matches the from pattern')
+                before = before[start + 1:]
+            cnt = 0
+            for n in before:
+                if self._matches_count(st, c, n):
+                    cnt += 1
+            if cnt == 0:
+                raise XSLTUnsupported('xsl:number level="any" counting no node (0 or empty?)')
+            return [cnt]
+        anc = []                   # ancestor-or-self, nearest first
+        n = cur
+        while n is not None:
+            anc.append(n)
+            n = n.parent
+        if frm is not None:
+            cut = None
+            for i in range(1, len(anc)):
+                if frm.matches(st, anc[i], c.vars):
+                    cut = i
+                    break
+            if cut is None:
+                raise XSLTUnsupported('xsl:number: no ancestor matches the from pattern')
+            anc = anc[:cut]
+        if level == 'single':
+            for a in anc:
+                if self._matches_count(st, c, a):
+                    return [self._sibling_number(st, c, a)]
+            return []
+        out = []
+        for a in reversed(anc):    # document order
+            if self._matches_count(st, c, a):
+                out.append(self._sibling_number(st, c, a))
+        return out
+
+    def _sibling_number(self, st, c, a):
+        k = 1
+        if a.parent is not None and a.kind not in ('attribute', 'namespace'):
+            for s in a.parent.children:
+                if s is a:
+                    break
+                if self._matches_count(st, c, s):
+                    k += 1
+        return k
+
+    def run(self, st, c, out):
+        if self.value is not None:
+            x = rx.to_number(self.value.eval(st, c))
+            if x != x or x in (rx.INF, -rx.INF):
+                raise XSLTUnsupported('xsl:number value is NaN/infinite')
+            x = rx.xp_round(x)
+            if x < 1:
+                raise XSLTUnsupported('xsl:number value below 1')
+            nums = [int(x)]
+        else:
+            nums = self._numbers(st, c)
+        fmt = self.format.eval(st, c) if self.format is not None else '1'
+        gsep = gsize = None
+        if self.gsep is not None and self.gsize is not None:
+            gsep = self.gsep.eval(st, c)
+            gs = _strip(self.gsize.eval(st, c))
+            if not re.match(r'^[0-9]+$', gs) or int(gs) < 1:
+                raise XSLTUnsupported('xsl:number grouping-size=%r' % gs)
+            gsize = int(gs)
+            if len(gsep) != 1:
+                raise XSLTUnsupported('xsl:number grouping-separator=%r' % gsep)
+        out.text(format_number_list(nums, fmt, gsep, gsize))
+
+
+# ---------------------------------------------------------------------------
+# Compiler
+# ---------------------------------------------------------------------------
+class _Global(object):
+    __slots__ = ('key', 'value', 'prec', 'order', 'is_param', 'el')
+
+
+class _KeyDef(object):
+    __slots__ = ('match', 'use')
+
+
+class _AttrSetDef(object):
+    __slots__ = ('uses', 'attrs', 'prec', 'order', 'const_names')
+
+
+_XSLT_FUNCTION_ARITY = {
+    ('', 'key'): (2, 2), ('', 'current'): (0, 0), ('', 'document'): (1, 2),
+    ('', 'generate-id'): (0, 1), ('', 'unparsed-entity-uri'): (1, 1),
+    (NS_EXSL_COMMON, 'node-set'): (1, 1), (NS_XALAN, 'nodeset'): (1, 1),
+    (NS_XALAN_OLD, 'nodeset'): (1, 1), (NS_EXSL_COMMON, 'object-type'): (1, 1),
+    (_GUARD_URI, 'ns'): (1, 1),
+}
+
+
+def _function_names():
+    d = dict((k, True) for k in rx.extension_functions())
+    for k in _XSLT_FUNCTION_ARITY:
+        d[k] = True
+    return d
+
+
+_PRIORITY_RE = re.compile(r'^-?([0-9]+(\.[0-9]*)?|\.[0-9]+)$')
+_OUTPUT_ATTRS = ('method', 'version', 'encoding', 'omit-xml-declaration', 'standalone',
+                 'doctype-public', 'doctype-system', 'cdata-section-elements', 'indent',
+                 'media-type')
+
+
+class _Compiler(object):
+    def __init__(self, decls, uri):
+        self.decls = decls
+        self.sheet = Stylesheet()
+        self.sheet.uri = uri
+        self.fnames = _function_names()
+        self.sheet.function_names = self.fnames
+        self.nscache = {}
+        self.exclcache = {}
+        self.base = uri
+        self.calls = []              # _CallTemplate to link
+        self.setrefs = []            # (names, el) attribute-set references to check
+
+    # -- static context of an element ------------------------------------
+    def ns_for(self, el):
+        k = (id(el), self.base)
+        d = self.nscache.get(k)
+        if d is None:
+            d = dict((p, u) for p, u in _nsmap(el).items() if p != '')
+            d[_GUARD_PFX] = _GUARD_URI
+            d[_BASE_KEY] = self.base
+            self.nscache[k] = d
+        return d
+
+    def _check(self, scan, ast, ns, scope, text, el, pattern=False, allow_vars=True, keydef=False):
+        for pfx, local in scan.funcs:
+            if pfx is None:
+                if local in _UNSUPPORTED_FUNCTIONS:
+                    raise XSLTUnsupported('function %s()' % local)
+                if local == 'current' and pattern:
+                    raise XSLTStaticError('%s: current() in a pattern (12.4)' % _where(el))
+                if local == 'key' and keydef:
+                    raise XSLTUnsupported('key() inside xsl:key')
+        if scan.vars and not allow_vars:
+            raise XSLTStaticError('%s: variable reference in %r (5.3 / 12.2)' % (_where(el), text))
+        sctx = rx.Context(None, 1, 1, {}, ns, self.fnames)
+        try:
+            rx.static_check(ast, sctx)
+        except rx.XPathStaticError as e:
+            raise XSLTStaticError('%s: %s: %s' % (_where(el), text, e))
+        # arity of the XSLT / extension functions implemented here
+        self._arity(ast, ns, el, text)
+        for pfx, local in scan.vars:
+            if pfx is None:
+                key = local
+            else:
+                key = '{' + (XML_NS if pfx == 'xml' else ns[pfx]) + '}' + local
+            if key not in scope and key not in self.sheet.global_keys:
+                raise XSLTStaticError('%s: %s: variable $%s is not declared' % (_where(el), text, key))
+
+    def _arity(self, e, ns, el, text):
+        stack = [e]
+        while stack:
+            x = stack.pop()
+            if not isinstance(x, tuple):
+                continue
+            if x and x[0] == 'fn':
+                pfx, local, args = x[1], x[2], x[3]
+                uri = '' if pfx is None else (XML_NS if pfx == 'xml' else ns.get(pfx))
+                ar = _XSLT_FUNCTION_ARITY.get((uri, local))
+                if ar is not None and not (pfx is None and local in rx.CORE_ARITY):
+                    if not ar[0] <= len(args) <= ar[1]:
+                        raise XSLTStaticError('%s: %s: wrong number of arguments for %s()'
+                                              % (_where(el), text, local))
+                stack.extend(args)
+            elif x and x[0] in ('lit', 'num', 'name', 'nsany', 'any', 'type', 'pi'):
+                continue
+            else:
+                stack.extend(y for y in x if isinstance(y, tuple))
+
+    def expr(self, text, el, scope, keydef=False):
+        ns = self.ns_for(el)
+        try:
+            ast = rx.parse(text)
+        except rx.XPathSyntaxError as e:
+            raise XSLTStaticError('%s: expression %r: %s' % (_where(el), text, e))
+        scan = _Scan(ns)
+        ast = scan.expr(ast)
+        self._check(scan, ast, ns, scope, text, el, allow_vars=not keydef, keydef=keydef)
+        return _Expr(ast, ns, text)
+
+    def pattern(self, text, el, scope, allow_vars, keydef=False):
+        ns = self.ns_for(el)
+        try:
+            ast = rx.parse_pattern(text)
+        except rx.XPathSyntaxError as e:
+            raise XSLTStaticError('%s: pattern %r: %s' % (_where(el), text, e))
+        scan = _Scan(ns)
+        ast = scan.expr(ast)
+        self._check(scan, ast, ns, scope, text, el, pattern=True, allow_vars=allow_vars,
+                    keydef=keydef)
+        return _Pattern(ast, ns, text)
+
+    def avt(self, text, el, scope):
+        parts = []
+        for p in _parse_avt(text, _where(el)):
+            if isinstance(p, str):
+                parts.append(p)
+            else:
+                parts.append(self.expr(p[1], el, scope))
+        return _AVT(parts)
+
+    def qname(self, text, el, what):
+        return _expand_qname(text, _nsmap(el), '%s %s' % (_where(el), what))
+
+    def qnames(self, text, el, what):
+        return [self.qname(t, el, what) for t in _tokens(text)]
+
+    def excluded(self, el):
+        """URIs excluded by exclude-result-prefixes in effect at stylesheet element el."""
+        k = id(el)
+        r = self.exclcache.get(k)
+        if r is not None:
+            return r
+        if el.parent is not None and el.parent.kind == 'element':
+            r = set(self.excluded(el.parent))
+        else:
+            r = set()
+        val = None
+        if el.uri == XSL_NS:
+            if el.local in ('stylesheet', 'transform'):
+                for a in el.attributes:
+                    if a.uri == '' and a.local == 'exclude-result-prefixes':
+                        val = a.value
+        else:
+            for a in el.attributes:
+                if a.uri == XSL_NS and a.local == 'exclude-result-prefixes':
+                    val = a.value
+        if val is not None:
+            nsm = _nsmap(el)
+            for t in _tokens(val):
+                if t == '#default':
+                    if '' not in nsm:
+                        raise XSLTStaticError('%s: exclude-result-prefixes="#default" without a '
+                                              'default namespace' % _where(el))
+                    r.add(nsm[''])
+                elif t in nsm:
+                    r.add(nsm[t])
+                else:
+                    raise XSLTStaticError('%s: exclude-result-prefixes: unbound prefix %r'
+                                          % (_where(el), t))
+        self.exclcache[k] = r
+        return r
+
+    # -- top level ---------------------------------------------------------
+    def build(self):
+        sheet = self.sheet
+        decls = sorted(self.decls, key=lambda d: (d.merged.prec, d.order))
+        # pass 1: names of global variables, namespace aliases
+        gseen = {}
+        for d in decls:
+            el = d.el
+            if el.local in ('variable', 'param'):
+                at = _xsl_attrs(el, ('name', 'select'), ('name',))
+                key = _varkey(self.qname(at['name'], el, 'name'))
+                if (key, d.merged.prec) in gseen:
+                    raise XSLTStaticError('global variable $%s bound twice at one import precedence' % key)
+                gseen[(key, d.merged.prec)] = True
+                sheet.global_keys.add(key)
+            elif el.local == 'namespace-alias':
+                at = _xsl_attrs(el, ('stylesheet-prefix', 'result-prefix'),
+                                ('stylesheet-prefix', 'result-prefix'))
+                _must_be_empty(el)
+                nsm = _nsmap(el)
+                uris = []
+                for which in ('stylesheet-prefix', 'result-prefix'):
+                    p = _strip(at[which])
+                    if p == '#default':
+                        if '' not in nsm:
+                            raise XSLTUnsupported('xsl:namespace-alias %s="#default" without a '
+                                                  'default namespace declaration' % which)
+                        uris.append(nsm[''])
+                    elif p in nsm and p != '':
+                        uris.append(nsm[p])
+                    else:
+                        raise XSLTStaticError('xsl:namespace-alias: unbound prefix %r' % p)
+                sheet.aliases[uris[0]] = uris[1]     # increasing precedence/order: last wins
+            elif el.local == 'decimal-format':
+                raise XSLTUnsupported('xsl:decimal-format')
+        # pass 2
+        globals_by_key = {}
+        tnames = {}
+        out_prec = {}
+        for d in decls:
+            el = d.el
+            self.base = d.base
+            n = el.local
+            if n == 'template':
+                self.template(d)
+            elif n in ('variable', 'param'):
+                g = _Global()
+                g.key, g.value = self.variable(el, frozenset(), top=True)
+                g.prec, g.order, g.is_param, g.el = d.merged.prec, d.order, n == 'param', el
+                globals_by_key[g.key] = g            # highest precedence comes last
+            elif n == 'key':
+                at = _xsl_attrs(el, ('name', 'match', 'use'), ('name', 'match', 'use'))
+                _must_be_empty(el)
+                kd = _KeyDef()
+                kd.match = self.pattern(at['match'], el, frozenset(), False, keydef=True)
+                kd.use = self.expr(at['use'], el, frozenset(), keydef=True)
+                sheet.keys.setdefault(self.qname(at['name'], el, 'name'), []).append(kd)
+            elif n == 'attribute-set':
+                self.attribute_set(d)
+            elif n in ('strip-space', 'preserve-space'):
+                at = _xsl_attrs(el, ('elements',), ('elements',))
+                _must_be_empty(el)
+                nsm = _nsmap(el)
+                for t in _tokens(at['elements']):
+                    if t == '*':
+                        test, prio = ('any',), -0.5
+                    elif t.endswith(':*') and rx.is_ncname(t[:-2]):
+                        p = t[:-2]
+                        if p != 'xml' and p not in nsm:
+                            raise XSLTStaticError('%s: unbound prefix %r' % (_where(el), p))
+                        test, prio = ('ns', XML_NS if p == 'xml' else nsm[p]), -0.25
+                    else:
+                        # 3.4: a NameTest is expanded like an XPath name test:
+                        # no prefix -> null namespace
+                        test, prio = ('name',) + self.qname(t, el, 'elements'), 0.0
+                    sheet.space_rules.append((d.merged.prec, prio, d.order, test,
+                                              n == 'strip-space'))
+            elif n == 'output':
+                at = _xsl_attrs(el, _OUTPUT_ATTRS)
+                _must_be_empty(el)
+                for k, v in at.items():
+                    if k == 'cdata-section-elements':
+                        names = self.qnames_default(v, el)
+                        sheet.output.setdefault(k, [])
+                        for nm in names:
+                            if nm not in sheet.output[k]:
+                                sheet.output[k].append(nm)
+                        continue
+                    if k == 'method':
+                        v = _strip(v)
+                        if v not in ('xml', 'html', 'text'):
+                            q = _split_qname(v)
+                            if q is None or q[0] is None:
+                                raise XSLTStaticError('xsl:output method=%r' % v)
+                            v = '{%s}%s' % self.qname(v, el, 'method')
+                    if k in ('indent', 'omit-xml-declaration', 'standalone'):
+                        v = _strip(v)
+                        if v not in ('yes', 'no'):
+                            raise XSLTStaticError('xsl:output %s=%r' % (k, v))
+                    if k in sheet.output and out_prec[k] == d.merged.prec and sheet.output[k] != v:
+                        sheet.output.setdefault('#conflicts', []).append(k)
+                    sheet.output[k] = v              # increasing precedence/order: last wins
+                    out_prec[k] = d.merged.prec
+            elif n in ('namespace-alias',):
+                pass
+            elif n in ('import', 'include'):
+                raise AssertionError
+            else:
+                raise XSLTStaticError('xsl:%s is not allowed at the top level' % n)
+        sheet.globals = sorted(globals_by_key.values(), key=lambda g: (g.prec, g.order))
+        sheet.space_rules.sort(key=lambda r: (r[0], r[1], r[2]))
+        self.link()
+        return sheet
+
+    def qnames_default(self, text, el):
+        # cdata-section-elements: element names, expanded with the default namespace
+        nsm = _nsmap(el)
+        return [_expand_qname(t, nsm, 'cdata-section-elements', use_default=True)
+                for t in _tokens(text)]
+
+    def template(self, d):
+        el = d.el
+        sheet = self.sheet
+        at = _xsl_attrs(el, ('match', 'name', 'priority', 'mode'))
+        if 'match' not in at and 'name' not in at:
+            raise XSLTStaticError('%s: neither match nor name' % _where(el))
+        if 'mode' in at and 'match' not in at:
+            raise XSLTStaticError('%s: mode without match' % _where(el))
+        t = Template()
+        t.el = el
+        t.merged = d.merged
+        t.order = d.order
+        t.name = self.qname(at['name'], el, 'name') if 'name' in at else None
+        t.mode = self.qname(at['mode'], el, 'mode') if 'mode' in at else None
+        prio = None
+        if 'priority' in at:
+            ps = _strip(at['priority'])
+            if not _PRIORITY_RE.match(ps):
+                raise XSLTStaticError('%s: priority=%r is not a number' % (_where(el), at['priority']))
+            prio = float(ps)
+        content = _content(el)
+        scope = frozenset()
+        t.params = []
+        i = 0
+        while i < len(content) and _is_xsl(content[i], 'param'):
+            key, val = self.variable(content[i], scope)
+            if key in scope:
+                raise XSLTStaticError('%s: parameter $%s bound twice' % (_where(el), key))
+            scope = scope | frozenset((key,))
+            v = _Variable()
+            v.key, v.value = key, val
+            t.params.append(v)
+            i += 1
+        t.body = self.body(content[i:], scope)
+        if t.name is not None:
+            old = sheet.named.get(t.name)
+            if old is not None and old.merged.prec == d.merged.prec:
+                raise XSLTStaticError('two templates named {%s}%s at one import precedence' % t.name)
+            sheet.named[t.name] = t                  # increasing precedence: last wins
+        if 'match' in at:
+            pat = self.pattern(at['match'], el, frozenset(), False)
+            for alt, defprio in rx.pattern_alternatives(pat.ast):
+                r = Rule()
+                r.pattern = _Pattern(alt, pat.ns, at['match'])
+                r.priority = prio if prio is not None else defprio
+                r.template = t
+                r.prec = d.merged.prec
+                r.order = d.order
+                sheet.rules.setdefault(t.mode, []).append(r)
+
+    def variable(self, el, scope, top=False):
+        """xsl:variable / xsl:param / xsl:with-param -> (key, _Value)"""
+        at = _xsl_attrs(el, ('name', 'select'), ('name',))
+        key = _varkey(self.qname(at['name'], el, 'name'))
+        content = _content(el)
+        v = _Value()
+        v.select = v.body = None
+        v.base = self.base
+        if 'select' in at:
+            if content:
+                raise XSLTStaticError('%s: both select and content' % _where(el))
+            v.select = self.expr(at['select'], el, scope)
+        elif content:
+            v.body = self.body(content, scope)
+        return key, v
+
+    def attribute_set(self, d):
+        el = d.el
+        at = _xsl_attrs(el, ('name', 'use-attribute-sets'), ('name',))
+        name = self.qname(at['name'], el, 'name')
+        a = _AttrSetDef()
+        a.uses = self.qnames(at.get('use-attribute-sets', ''), el, 'use-attribute-sets')
+        self.setrefs.append((a.uses, el))
+        a.attrs = []
+        a.const_names = set()
+        a.prec, a.order = d.merged.prec, d.order
+        for c in _content(el):
+            if not _is_xsl(c, 'attribute'):
+                raise XSLTStaticError('%s: only xsl:attribute is allowed' % _where(el))
+            ins = self.i_attribute(c, frozenset())
+            a.attrs.append(ins)
+            if ins.name.const is not None and (ins.namespace is None or ins.namespace.const is not None):
+                a.const_names.add((ins.name.const, None if ins.namespace is None else ins.namespace.const))
+        self.sheet.attrsets.setdefault(name, []).append(a)
+
+    def link(self):
+        sheet = self.sheet
+        for call, el in self.calls:
+            t = sheet.named.get(call.name)
+            if t is None:
+                raise XSLTStaticError('%s: no template named {%s}%s' % ((_where(el),) + call.name))
+            call.template = t
+        for names, el in self.setrefs:
+            for nm in names:
+                if nm not in sheet.attrsets:
+                    raise XSLTUnsupported('%s: reference to undeclared attribute set {%s}%s '
+                                          '(XSLT 1.0 does not say)' % ((_where(el),) + nm))
+        # 7.1.4 circular use-attribute-sets
+        state = {}
+
+        def visit(nm):
+            s = state.get(nm)
+            if s == 1:
+                raise XSLTStaticError('attribute set {%s}%s uses itself' % nm)
+            if s == 2:
+                return
+            state[nm] = 1
+            for dfn in sheet.attrsets[nm]:
+                for u in dfn.uses:
+                    visit(u)
+            state[nm] = 2
+        for nm in sheet.attrsets:
+            visit(nm)
+        for nm, defs in sheet.attrsets.items():
+            defs.sort(key=lambda a: (a.prec, a.order))
+
+    # -- templates (sequence constructors) ------------------------------------
+    def body(self, nodes, scope):
+        ins = []
+        binds = False
+        for n in nodes:
+            if n.kind == 'text':
+                ins.append(_Text(n.value))
+                continue
+            if n.uri == XSL_NS:
+                if n.local == 'variable':
+                    key, val = self.variable(n, scope)
+                    if key in scope:
+                        raise XSLTStaticError('%s: $%s shadows another local binding (11.5)'
+                                              % (_where(n), key))
+                    scope = scope | frozenset((key,))
+                    v = _Variable()
+                    v.key, v.value = key, val
+                    ins.append(v)
+                    binds = True
+                    continue
+                f = getattr(self, 'i_' + n.local.replace('-', '_'), None)
+                if f is None:
+                    if n.local == 'fallback':
+                        raise XSLTUnsupported('xsl:fallback')
+                    raise XSLTStaticError('%s is not allowed in a template' % _where(n))
+                ins.append(f(n, scope))
+            else:
+                ins.append(self.lre(n, scope))
+        return _Body(ins, binds)
+
+    def lre(self, el, scope):
+        sheet = self.sheet
+        aliases = sheet.aliases
+        ins = _LRE()
+        ins.uri = aliases.get(el.uri, el.uri) if el.uri else ''
+        ins.local = el.local
+        ins.prefix = el.prefix
+        excl = self.excluded(el)
+        nsmap = {}
+        for p, u in _nsmap(el).items():
+            if p == 'xml' or u == XSL_NS or u in excl:
+                continue
+            nsmap[p] = aliases.get(u, u)
+        ins.nsmap = nsmap
+        ins.attrsets = None
+        ins.attrs = []
+        for a in el.attributes:
+            if a.uri == XSL_NS:
+                if a.local == 'use-attribute-sets':
+                    ins.attrsets = self.qnames(a.value, el, 'xsl:use-attribute-sets')
+                    self.setrefs.append((ins.attrsets, el))
+                elif a.local == 'exclude-result-prefixes':
+                    pass
+                else:
+                    raise XSLTUnsupported('%s: attribute %s' % (_where(el), a.qname))
+            else:
+                uri = aliases.get(a.uri, a.uri) if a.uri else ''
+                ins.attrs.append((uri, a.local, a.prefix, self.avt(a.value, el, scope)))
+        ins.body = self.body(_content(el), scope)
+        return ins
+
+    def _sets(self, at, el):
+        if 'use-attribute-sets' not in at:
+            return None
+        names = self.qnames(at['use-attribute-sets'], el, 'use-attribute-sets')
+        self.setrefs.append((names, el))
+        return names
+
+    def i_text(self, el, scope):
+        at = _xsl_attrs(el, ('disable-output-escaping',))
+        self._doe(at, el)
+        s = []
+        for c in el.children:
+            if c.kind == 'element':
+                raise XSLTStaticError('%s: element inside xsl:text' % _where(el))
+            if c.kind == 'text':
+                s.append(c.value)
+        return _Text(''.join(s))
+
+    def _doe(self, at, el):
+        v = at.get('disable-output-escaping')
+        if v is None:
+            return
+        v = _strip(v)
+        if v == 'yes':
+            raise XSLTUnsupported('disable-output-escaping="yes"')
+        if v != 'no':
+            raise XSLTStaticError('%s: disable-output-escaping=%r' % (_where(el), v))
+
+    def i_value_of(self, el, scope):
+        at = _xsl_attrs(el, ('select', 'disable-output-escaping'), ('select',))
+        self._doe(at, el)
+        _must_be_empty(el)
+        return _ValueOf(self.expr(at['select'], el, scope))
+
+    def i_copy_of(self, el, scope):
+        at = _xsl_attrs(el, ('select',), ('select',))
+        _must_be_empty(el)
+        return _CopyOf(self.expr(at['select'], el, scope))
+
+    def i_copy(self, el, scope):
+        at = _xsl_attrs(el, ('use-attribute-sets',))
+        ins = _Copy()
+        ins.attrsets = self._sets(at, el)
+        ins.body = self.body(_content(el), scope)
+        return ins
+
+    def i_element(self, el, scope):
+        at = _xsl_attrs(el, ('name', 'namespace', 'use-attribute-sets'), ('name',))
+        ins = _Element()
+        ins.name = self.avt(at['name'], el, scope)
+        ins.namespace = self.avt(at['namespace'], el, scope) if 'namespace' in at else None
+        ins.nsmap = _nsmap(el)
+        ins.attrsets = self._sets(at, el)
+        ins.body = self.body(_content(el), scope)
+        return ins
+
+    def i_attribute(self, el, scope):
+        at = _xsl_attrs(el, ('name', 'namespace'), ('name',))
+        ins = _Attribute()
+        ins.name = self.avt(at['name'], el, scope)
+        ins.namespace = self.avt(at['namespace'], el, scope) if 'namespace' in at else None
+        ins.nsmap = _nsmap(el)
+        ins.body = self.body(_content(el), scope)
+        return ins
+
+    def i_comment(self, el, scope):
+        _xsl_attrs(el, ())
+        ins = _Comment()
+        ins.body = self.body(_content(el), scope)
+        return ins
+
+    def i_processing_instruction(self, el, scope):
+        at = _xsl_attrs(el, ('name',), ('name',))
+        ins = _PI()
+        ins.name = self.avt(at['name'], el, scope)
+        ins.body = self.body(_content(el), scope)
+        return ins
+
+    def i_if(self, el, scope):
+        at = _xsl_attrs(el, ('test',), ('test',))
+        ins = _If()
+        ins.test = self.expr(at['test'], el, scope)
+        ins.body = self.body(_content(el), scope)
+        return ins
+
+    def i_choose(self, el, scope):
+        _xsl_attrs(el, ())
+        ins = _Choose()
+        ins.whens = []
+        ins.otherwise = None
+        for c in _content(el):
+            if _is_xsl(c, 'when') and ins.otherwise is None:
+                at = _xsl_attrs(c, ('test',), ('test',))
+                ins.whens.append((self.expr(at['test'], c, scope), self.body(_content(c), scope)))
+            elif _is_xsl(c, 'otherwise') and ins.otherwise is None and ins.whens:
+                _xsl_attrs(c, ())
+                ins.otherwise = self.body(_content(c), scope)
+            else:
+                raise XSLTStaticError('%s: bad content of xsl:choose' % _where(el))
+        if not ins.whens:
+            raise XSLTStaticError('%s: xsl:choose without xsl:when' % _where(el))
+        return ins
+
+    def sort(self, el, scope):
+        at = _xsl_attrs(el, ('select', 'lang', 'data-type', 'order', 'case-order'))
+        _must_be_empty(el)
+        if 'lang' in at:
+            raise XSLTUnsupported('xsl:sort lang')
+        if 'case-order' in at:
+            raise XSLTUnsupported('xsl:sort case-order')
+        s = _Sort()
+        s.select = self.expr(at.get('select', '.'), el, scope)
+        s.order = self.avt(at['order'], el, scope) if 'order' in at else None
+        s.datatype = self.avt(at['data-type'], el, scope) if 'data-type' in at else None
+        return s
+
+    def with_params(self, els, scope, owner):
+        out = []
+        seen = set()
+        for c in els:
+            key, val = self.variable(c, scope)
+            if key in seen:
+                raise XSLTStaticError('%s: two xsl:with-param named %s' % (_where(owner), key))
+            seen.add(key)
+            wp = _WithParam()
+            wp.key, wp.value = key, val
+            out.append(wp)
+        return out
+
+    def i_for_each(self, el, scope):
+        at = _xsl_attrs(el, ('select',), ('select',))
+        ins = _ForEach()
+        ins.select = self.expr(at['select'], el, scope)
+        content = _content(el)
+        i = 0
+        ins.sorts = []
+        while i < len(content) and _is_xsl(content[i], 'sort'):
+            ins.sorts.append(self.sort(content[i], scope))
+            i += 1
+        ins.body = self.body(content[i:], scope)
+        return ins
+
+    def i_apply_templates(self, el, scope):
+        at = _xsl_attrs(el, ('select', 'mode'))
+        ins = _ApplyTemplates()
+        ins.select = self.expr(at['select'], el, scope) if 'select' in at else None
+        ins.mode = self.qname(at['mode'], el, 'mode') if 'mode' in at else None
+        ins.sorts = []
+        wps = []
+        for c in _content(el):
+            if _is_xsl(c, 'sort'):
+                ins.sorts.append(self.sort(c, scope))
+            elif _is_xsl(c, 'with-param'):
+                wps.append(c)
+            else:
+                raise XSLTStaticError('%s: bad content of xsl:apply-templates' % _where(el))
+        ins.params = self.with_params(wps, scope, el)
+        return ins
+
+    def i_apply_imports(self, el, scope):
+        _xsl_attrs(el, ())
+        _must_be_empty(el)
+        return _ApplyImports()
+
+    def i_call_template(self, el, scope):
+        at = _xsl_attrs(el, ('name',), ('name',))
+        ins = _CallTemplate()
+        ins.name = self.qname(at['name'], el, 'name')
+        ins.template = None
+        wps = []
+        for c in _content(el):
+            if _is_xsl(c, 'with-param'):
+                wps.append(c)
+            else:
+                raise XSLTStaticError('%s: bad content of xsl:call-template' % _where(el))
+        ins.params = self.with_params(wps, scope, el)
+        self.calls.append((ins, el))
+        return ins
+
+    def i_message(self, el, scope):
+        at = _xsl_attrs(el, ('terminate',))
+        t = _strip(at.get('terminate', 'no'))
+        if t not in ('yes', 'no'):
+            raise XSLTStaticError('%s: terminate=%r' % (_where(el), t))
+        ins = _Message()
+        ins.terminate = t == 'yes'
+        ins.body = self.body(_content(el), scope)
+        return ins
+
+    def i_number(self, el, scope):
+        at = _xsl_attrs(el, ('level', 'count', 'from', 'value', 'format', 'lang', 'letter-value',
+                             'grouping-separator', 'grouping-size'))
+        _must_be_empty(el)
+        if 'lang' in at or 'letter-value' in at:
+            raise XSLTUnsupported('xsl:number lang / letter-value')
+        ins = _Number()
+        ins.level = _strip(at.get('level', 'single'))
+        if ins.level not in ('single', 'multiple', 'any'):
+            raise XSLTStaticError('%s: level=%r' % (_where(el), ins.level))
+        ins.count = self.pattern(at['count'], el, scope, True) if 'count' in at else None
+        ins.frm = self.pattern(at['from'], el, scope, True) if 'from' in at else None
+        ins.value = self.expr(at['value'], el, scope) if 'value' in at else None
+        ins.format = self.avt(at['format'], el, scope) if 'format' in at else None
+        ins.gsep = self.avt(at['grouping-separator'], el, scope) if 'grouping-separator' in at else None
+        ins.gsize = self.avt(at['grouping-size'], el, scope) if 'grouping-size' in at else None
+        return ins
+
+
+def compile_stylesheet(text, uri=None, resolver=None):
+    """Compile a stylesheet (str or bytes).  resolver(href, base_uri) -> text is
+    used for xsl:import / xsl:include (href as written, base_uri = URI of the
+    module containing the element)."""
+    ld = _Loader(resolver)
+    ld.load_level(text, uri, [])
+    return _Compiler(ld.decls, uri).build()
